@@ -175,6 +175,13 @@ type Sched struct {
 	Limit   time.Duration // wall-clock limit for one step (watchdog)
 	HungThread *Thread
 	HungStack  string
+	// MaxSteps bounds the scheduled part of a run: after that many steps the
+	// remaining threads are run to completion one after the other, lowest ID
+	// first, without consulting the picker and without parking at yield
+	// points (still one thread at a time, still replayable).
+	MaxSteps int
+	Capped   bool
+	free     *Thread
 }
 
 var cur *Sched
@@ -218,6 +225,9 @@ func lookupThread() *Thread {
 func Yield(site string) {
 	th := lookupThread()
 	if th == nil {
+		return
+	}
+	if cur.free == th {
 		return
 	}
 	th.LastSite = site
@@ -317,7 +327,11 @@ func (s *Sched) waitQuiescent() bool {
 				}
 				continue
 			}
-			if time.Since(start) > s.Limit {
+			limit := s.Limit
+			if s.free != nil {
+				limit *= 4 // one "step" is now everything the thread still has to do
+			}
+			if time.Since(start) > limit {
 				for _, th := range s.Threads {
 					if th.state == stRunning {
 						s.HungThread = th
@@ -402,7 +416,14 @@ func (s *Sched) Run() (verdict string) {
 			}
 			return "deadlock"
 		}
-		pick := runnable[s.Pick(runnable, last)]
+		var pick *Thread
+		if s.MaxSteps > 0 && len(s.Trace) >= s.MaxSteps {
+			s.Capped = true
+			pick = runnable[0]
+			s.free = pick
+		} else {
+			pick = runnable[s.Pick(runnable, last)]
+		}
 		s.Trace = append(s.Trace, strconv.Itoa(pick.ID)+"@"+pick.LastSite)
 		pick.Steps++
 		pick.state = stRunning
